@@ -19,6 +19,9 @@ ToBitsMasks == (0..(2 ^ L - 1)) \X (0..((2 ^ K) \div D - 1))
 ToBitsView(a, m) == a + 2 ^ L + (2 ^ L) * m[2] - m[1]
 ModMasks == (0..(B - 1)) \X (0..(MODBOUND \div D - 1))
 ModView(a, m) == a + 2 ^ L - ((2 ^ L) % B) + B * m[2] - m[1]
+\* convert: x + 2^(L-1) + (sum of bounded randoms)
+ConvMasks == 0..((2 ^ (K + L)) \div D - 1)
+ConvView(a, m) == a + 2 ^ (L - 1) + m
 \* sgn with LT: opened c, then the public zero test of prod(e) (only whether it is zero is a function of the secrets; its
 \* nonzero value is blinded multiplicatively, see ZeroView)
 SgnMasks == (0..(2 ^ L - 1)) \X (0..((2 ^ K) \div D - 1)) \X {-1, 1}
